@@ -89,6 +89,19 @@ theorem validate_conserves {L O tx fork i o} (h : validate L O tx fork = .accept
       simp at this
       omega
 
+/-- **validate_inputs_distinct.** No stored output is counted twice: the (hash, index) references
+    of an accepted transaction's inputs are pairwise different. -/
+theorem validate_inputs_distinct {L O tx fork i o} (h : validate L O tx fork = .accept i o) :
+    (tx.inputs.map inputKey).Nodup := by
+  obtain ⟨_, _, f, hin, _, _, hd⟩ := validateM_ok (accept_iff.1 h)
+  rcases validateInputs_ok hin with ⟨fl, hl⟩ | ⟨a, hl, _, _⟩
+  · obtain ⟨x, hx, _, _⟩ := early_single hl hd
+    simp [hx]
+  · obtain ⟨h1, h2⟩ := loop_filter_nodup _ _ _ _ hl
+    have := h2 (by simp)
+    rw [h1] at this
+    simpa using this
+
 /-- **validate_single_asset.** All value an accepted transaction reads from the ledger and all
     outputs it materialises carry `tx.asset`; a mint creates XIN only. -/
 theorem validate_single_asset {L O tx fork i o} (h : validate L O tx fork = .accept i o) :
